@@ -25,6 +25,13 @@ TE_VALUES = [b"chunked", b"Chunked", b"CHUNKED", b"chunked ", b" chunked", b"gzi
              b"x-gzip, chunked", b"\x0bchunked", b"chunked\x0b", b"\x0cchunked", b"chunked\x0c",
              b"\xa0chunked", b"chunked\x85", b"\x1fchunked", b"chun\x00ked", b"chunked\r", b"ch\nunked",
              b"gzip,\tchunked", b"gzip ,chunked", b"zstd", b"", b" ", b"trailers", b"chunked,\x0bgzip"]
+# near misses of every registered name: a coding that is not registered is unknown, whatever it resembles (only x-gzip and
+# x-compress are aliases, RFC 9112 7.2)
+TE_NEAR_MISSES = [pre + name + post
+              for name in (b"chunked", b"Chunked", b"identity", b"gzip", b"deflate")
+              for pre, post in ((b"x-", b""), (b"X-", b""), (b"x_", b""), (b"", b"-x"), (b"-", b""), (b"", b"2"),
+                                (b"gzip, x-", b""), (b"x-", b", chunked"))
+              if pre + name + post not in (b"x-gzip", b"X-gzip", b"gzip, x-gzip", b"x-gzip, chunked")]
 TE_NAMES = [b"Transfer-Encoding"] * 8 + [b"transfer-encoding", b"TRANSFER-ENCODING", b"Transfer-encoding",
             b"Transfer_Encoding", b"Transfer-Encoding ", b"Transfer-Encoding\t", b" Transfer-Encoding",
             b"Transfer\xadEncoding", b"X-Transfer-Encoding", b"Transfer-Encodin", b"Transfer-Encoding\x00",
@@ -149,7 +156,7 @@ def gen_message(rng, i=0, hostile=0.5):
 
     def te_line():
         name = rng.choice(TE_NAMES) if h and rng.random() < 0.3 else b"Transfer-Encoding"
-        val = rng.choice(TE_VALUES) if h and rng.random() < 0.6 else b"chunked"
+        val = rng.choice(TE_VALUES if rng.random() < 0.8 else TE_NEAR_MISSES) if h and rng.random() < 0.6 else b"chunked"
         if h and rng.random() < 0.15:
             j = rng.choice(WS_JUNK)
             val = rng.choice([j + val, val + j, val.replace(b",", b"," + j, 1)])
